@@ -1,5 +1,5 @@
 (* Facts about the concrete HTTP/1 recogniser (Model/HttpRecog.v) needed to instantiate the C09 theorems. *)
-From Coq Require Import List NArith Bool Lia.
+From Coq Require Import List NArith Bool Lia Arith PeanoNat.
 From Coq Require Import Strings.Byte.
 From HN Require Import Base.Bytes Base.Cache Model.HttpRecog Proofs.CacheProofs.
 Import ListNotations.
@@ -63,3 +63,156 @@ Proof.
 Qed.
 Lemma recog_req_all_a d : Forall (fun b => b = abyte) d -> recog_req d = None.
 Proof. intros H. unfold recog_req. now rewrite (can_parse_h1_all_a d H). Qed.
+
+(* ---- prefix stability: a head stays the same head when bytes follow it (needed by C09_reordered) ---- *)
+Lemma starts_with_app p : forall d e, starts_with p d = true -> starts_with p (d ++ e) = true.
+Proof.
+  induction p as [|x p IH]; intros d e H; [reflexivity|].
+  destruct d as [|y d]; [discriminate|]. cbn in *. apply andb_true_iff in H. destruct H as [H1 H2].
+  rewrite H1. cbn. now apply IH.
+Qed.
+Lemma starts_with_long p : forall d e, (length p <= length d)%nat -> starts_with p (d ++ e) = starts_with p d.
+Proof.
+  induction p as [|x p IH]; intros d e H; [reflexivity|].
+  destruct d as [|y d]; [cbn in H; lia|]. cbn in *. rewrite IH by lia. reflexivity.
+Qed.
+Lemma starts_with_short p : forall d e, starts_with p (d ++ e) = true -> (length d <= length p)%nat -> d = firstn (length d) p.
+Proof.
+  induction p as [|x p IH]; intros d e H L.
+  - destruct d; [reflexivity | cbn in L; lia].
+  - destruct d as [|y d]; [reflexivity|]. cbn in *. apply andb_true_iff in H. destruct H as [H1 H2].
+    apply beqb_eq in H1. subst y. f_equal. eapply IH; [exact H2 | lia].
+Qed.
+Lemma starts_with_split p : forall d, starts_with p d = true -> exists rest, d = p ++ rest.
+Proof.
+  induction p as [|x p IH]; intros d H; [exists d; reflexivity|].
+  destruct d as [|y d]; [discriminate|]. cbn in H. apply andb_true_iff in H. destruct H as [H1 H2].
+  apply beqb_eq in H1. subst y. destruct (IH d H2) as [rest ->]. exists rest. reflexivity.
+Qed.
+
+Lemma head_scan_step b r acc :
+  head_scan (b :: r) acc =
+  if starts_with crlfcrlf (b :: r) then Some (frev acc ++ crlfcrlf)
+  else if starts_with lflf (b :: r) then Some (frev acc ++ lflf) else head_scan r (b :: acc).
+Proof. reflexivity. Qed.
+
+Lemma head_scan_short_none d acc pat :
+  (pat = crlfcrlf \/ pat = lflf) -> (0 < length d < length pat)%nat -> d = firstn (length d) pat -> head_scan d acc = None.
+Proof.
+  intros [-> | ->] L E.
+  - destruct d as [|a [|b [|c [|x r]]]]; cbn in L; try lia; cbn in E; inversion E; subst; reflexivity.
+  - destruct d as [|a [|b r]]; cbn in L; try lia. cbn in E. inversion E; subst. reflexivity.
+Qed.
+
+Lemma head_scan_app d : forall acc e h, head_scan d acc = Some h -> head_scan (d ++ e) acc = Some h.
+Proof.
+  induction d as [|b r IH]; intros acc e h H; [discriminate|].
+  cbn [app]. rewrite head_scan_step in *.
+  destruct (starts_with crlfcrlf (b :: r)) eqn:E1.
+  - change (b :: r ++ e) with ((b :: r) ++ e). now rewrite (starts_with_app _ _ e E1).
+  - change (b :: r ++ e) with ((b :: r) ++ e).
+    destruct (starts_with crlfcrlf ((b :: r) ++ e)) eqn:E1'.
+    + exfalso. destruct (Nat.le_gt_cases (length crlfcrlf) (length (b :: r))) as [L|L].
+      * rewrite starts_with_long in E1' by exact L. congruence.
+      * assert (head_scan (b :: r) acc = None) as X.
+        { apply (head_scan_short_none _ _ crlfcrlf); [now left | cbn in *; lia|].
+          eapply starts_with_short; [exact E1' | lia]. }
+        rewrite head_scan_step, E1 in X. congruence.
+    + destruct (starts_with lflf (b :: r)) eqn:E2.
+      * now rewrite (starts_with_app _ _ e E2).
+      * destruct (starts_with lflf ((b :: r) ++ e)) eqn:E2'.
+        -- exfalso. destruct (Nat.le_gt_cases (length lflf) (length (b :: r))) as [L|L].
+           ++ rewrite starts_with_long in E2' by exact L. congruence.
+           ++ assert (head_scan (b :: r) acc = None) as X.
+              { apply (head_scan_short_none _ _ lflf); [now right | cbn in *; lia|].
+                eapply starts_with_short; [exact E2' | lia]. }
+              rewrite head_scan_step, E1, E2 in X. congruence.
+        -- now apply IH.
+Qed.
+
+Lemma head_scan_has_lf d : forall acc h, head_scan d acc = Some h -> In LF d.
+Proof.
+  induction d as [|b r IH]; intros acc h H; [discriminate|].
+  rewrite head_scan_step in H.
+  destruct (starts_with crlfcrlf (b :: r)) eqn:E1.
+  - destruct (starts_with_split _ _ E1) as [rest ->]. cbn. auto.
+  - destruct (starts_with lflf (b :: r)) eqn:E2.
+    + destruct (starts_with_split _ _ E2) as [rest ->]. cbn. auto.
+    + right. eapply IH; eauto.
+Qed.
+
+Lemma take_line_app d : forall cur e, In LF d -> take_line (d ++ e) cur = take_line d cur.
+Proof.
+  induction d as [|b r IH]; intros cur e H; [destruct H|].
+  cbn. destruct (beqb b LF) eqn:E; [reflexivity|].
+  apply IH. destruct H as [H|H]; [|exact H]. assert (beqb b LF = true) by (apply beqb_eq; now symmetry). congruence.
+Qed.
+Lemma first_line_app d e : In LF d -> first_line (d ++ e) = first_line d.
+Proof. intros H. unfold first_line. now rewrite take_line_app. Qed.
+
+Lemma shorter_than_app {A} k : forall (d e : list A), shorter_than k d = false -> shorter_than k (d ++ e) = false.
+Proof.
+  induction k as [|k IH]; intros d e H; [reflexivity|].
+  destruct d as [|x d]; [discriminate|]. cbn in *. now apply IH.
+Qed.
+
+Lemma looks_like_h2_app d e : shorter_than 9 d = false -> looks_like_h2 (d ++ e) = looks_like_h2 d.
+Proof.
+  intros H. do 9 (destruct d as [|? d]; [discriminate|]). reflexivity.
+Qed.
+
+Lemma first_line_preface rest : first_line (h2_preface ++ rest) = bs "PRI * HTTP/2.0".
+Proof. reflexivity. Qed.
+
+Lemma can_req_app d e : In LF d -> can_req d = true -> can_req (d ++ e) = true.
+Proof.
+  intros HL H. unfold can_req in *.
+  destruct (shorter_than 16 d) eqn:S; [discriminate|]. rewrite (shorter_than_app 16 d e S).
+  destruct (starts_with h2_preface d) eqn:P; [discriminate|].
+  rewrite (first_line_app d e HL).
+  destruct (starts_with h2_preface (d ++ e)) eqn:P'; [|exact H].
+  exfalso. destruct (starts_with_split _ _ P') as [rest E].
+  pose proof (first_line_app d e HL) as F. rewrite E, first_line_preface in F. rewrite <- F in H.
+  vm_compute in H. discriminate.
+Qed.
+
+Lemma can_resp_app d e : In LF d -> can_resp d = true -> can_resp (d ++ e) = true.
+Proof.
+  intros HL H. unfold can_resp in *.
+  destruct (shorter_than 12 d) eqn:S; [discriminate|]. rewrite (shorter_than_app 12 d e S).
+  assert (S9 : shorter_than 9 d = false).
+  { clear -S. do 9 (destruct d as [|? d]; [discriminate|]). reflexivity. }
+  rewrite (shorter_than_app 9 d e S9), (looks_like_h2_app d e S9), (first_line_app d e HL).
+  rewrite S9 in H. exact H.
+Qed.
+
+Lemma can_parse_h1_app d e : In LF d -> can_parse_h1 d = true -> can_parse_h1 (d ++ e) = true.
+Proof.
+  intros HL H. unfold can_parse_h1 in *. apply orb_true_iff in H. apply orb_true_iff.
+  destruct H as [H|H]; [left; now apply can_req_app | right; now apply can_resp_app].
+Qed.
+
+Lemma head_lines_app d e ls : head_lines d = Some ls -> head_lines (d ++ e) = Some ls /\ In LF d.
+Proof.
+  unfold head_lines. destruct (head_scan d []) as [h|] eqn:E; [|discriminate]. intros H.
+  rewrite (head_scan_app d [] e h E). split; [exact H | eapply head_scan_has_lf; eauto].
+Qed.
+
+Theorem recog_req_stable d e r : recog_req d = Some r -> recog_req (d ++ e) = Some r.
+Proof.
+  unfold recog_req. destruct (can_parse_h1 d) eqn:C; [|discriminate]. intros H.
+  assert (exists ls, head_lines d = Some ls) as [ls HL].
+  { unfold h1_parse_request in H. destruct (head_lines d); [eauto | discriminate]. }
+  destruct (head_lines_app d e ls HL) as [HL' LF'].
+  rewrite (can_parse_h1_app d e LF' C).
+  unfold h1_parse_request in *. rewrite HL'. rewrite HL in H. exact H.
+Qed.
+Theorem recog_resp_stable d e r : recog_resp d = Some r -> recog_resp (d ++ e) = Some r.
+Proof.
+  unfold recog_resp. destruct (can_parse_h1 d) eqn:C; [|discriminate]. intros H.
+  assert (exists ls, head_lines d = Some ls) as [ls HL].
+  { unfold h1_parse_response in H. destruct (head_lines d); [eauto | discriminate]. }
+  destruct (head_lines_app d e ls HL) as [HL' LF'].
+  rewrite (can_parse_h1_app d e LF' C).
+  unfold h1_parse_response in *. rewrite HL'. rewrite HL in H. exact H.
+Qed.
